@@ -175,7 +175,7 @@ def strip_generics(s):
 
 # ----------------------------------------------------------------------------- state
 class Frame:
-    __slots__ = ('fid', 'fn', 'locals', 'bb', 'ret_dest', 'ret_bb', 'unwind_bb', 'tag', 'at_term')
+    __slots__ = ('fid', 'fn', 'locals', 'bb', 'ret_dest', 'ret_bb', 'unwind_bb', 'tag', 'at_term', 'tsub')
 
     def __init__(self, fid, fn, tag=None):
         self.fid = fid
@@ -187,10 +187,12 @@ class Frame:
         self.unwind_bb = None
         self.tag = tag
         self.at_term = False     # resumed at the terminator of bb (after a yield point): statements already ran
+        self.tsub = None         # bindings of the generic parameters of fn's impl known at the call site (dict) or None
 
     def clone(self):
         f = Frame(self.fid, self.fn, self.tag)
         f.at_term = self.at_term
+        f.tsub = self.tsub
         f.locals = dict(self.locals)
         f.bb = self.bb
         f.ret_dest = self.ret_dest
@@ -615,6 +617,8 @@ class Engine:
             fields = {('f', i): v for i, v in enumerate(ops)}
             is_co = name.startswith(('{coroutine@', '{async'))
             extra = {'upvars': rv.fields}
+            if frame.tsub:
+                extra['tsub'] = frame.tsub
             if is_co:
                 extra['body'] = self.coroutine_body(frame.fn, name)
                 fields = self.reconstruct_captures(st, frame, rv, extra['body'], fields)
@@ -715,7 +719,7 @@ class Engine:
         return r[0]
 
     # ---- execution
-    def push_call(self, st, fn, args, ret_dest=None, ret_bb=None, unwind_bb=None, tag=None):
+    def push_call(self, st, fn, args, ret_dest=None, ret_bb=None, unwind_bb=None, tag=None, tsub=None):
         if getattr(fn, 'parse_error', None):
             raise Unsupported(f"function {fn.name} has unparsed statements: {fn.parse_error}")
         fr = Frame(st.next_fid, fn, tag)
@@ -727,9 +731,26 @@ class Engine:
         fr.ret_dest = ret_dest
         fr.ret_bb = ret_bb
         fr.unwind_bb = unwind_bb
+        if tsub is None and args:
+            # the body of a closure / coroutine runs with the generic bindings of the frame that created it
+            tsub = self._tsub_of_value(st, args[0])
+        fr.tsub = tsub
         st.frames.append(fr)
         self.stats.functions.add(fn.name)
         return fr
+
+    def _tsub_of_value(self, st, v, depth=0):
+        try:
+            if isinstance(v, VAgg):
+                if v.extra and v.extra.get('tsub'):
+                    return v.extra['tsub']
+                if v.name == 'Pin' and ('f', 0) in v.fields and depth < 3:
+                    return self._tsub_of_value(st, v.fields[('f', 0)], depth + 1)
+            if isinstance(v, VRef) and depth < 3:
+                return self._tsub_of_value(st, self.get_path(st, self.root_get(st, v.root), v.path), depth + 1)
+        except Unsupported:
+            pass
+        return None
 
     def run(self, st, stop_depth=0):
         """explore all paths from `st` until the frame stack shrinks to stop_depth; yields leaf states."""
